@@ -550,7 +550,7 @@ def run(tier, seed):
         res.merge(r)
     import tcv
     tcv.quiet_library()
-    res.add('evaluations', 4)
+    res.add('evaluations', 4 + 1 + 8 + 6 + 1 + 1)  # special scenarios: parts, shared file, registry, forcing forms, swapped namespaces, inner namespace, data directories
     for kind, msg in special_scenarios():
         res.violations.append(Violation(kind, msg, {'kind': 'special'}))
     res.coverage['config_lists'] = len(ls)
